@@ -73,7 +73,25 @@ def run(tier: str, budget: Budget, rnd, prop: str) -> StreamResult:
             N = 2 ** n
             mn = set(G.minimal_ids(n))
             op = rnd.choice(["setknown", "reveal", "reveal", "unreveal", "set", "unset", "stale", "stale_bulk", "setvalues",
-                             "compute", "compute", "compute", "undo"])
+                             "compute", "compute", "compute", "undo", "copy"])
+            if op == "copy":
+                # a copy taken in the middle of a history (after computes): from here on original and copy are two games that
+                # share nothing — un-revealing in one must not reach the other (copy() is what MetaGame and the solvers use)
+                if len(objs) >= 4:
+                    continue
+                cname = f"{name}c{len(objs)}"
+                try:
+                    cg = g.copy()
+                except Exception as e:      # noqa: BLE001
+                    res.disagree("copy() raised", {"error": err_kind(e), "history": list(o["hist"])})
+                    break
+                script.add(f"tab copy {name} {cname}", "ok", {"history": list(o["hist"]), "n": n})
+                objs.append({"name": cname, "n": n, "v": v, "comp": o["comp"], "g": cg, "K": set(o["K"]),
+                             "hist": list(o["hist"]) + [f"copy -> {cname} (this object is the copy)"],
+                             "digest": o["digest"], "stats": dict(o["stats"])})
+                o["hist"].append(f"copy -> {cname}")
+                res.count("op:copy")
+                continue
             try:
                 if op == "setknown":
                     lst = o.get("shared")
